@@ -141,6 +141,51 @@ template<class C> static bool chainsOk(const C& c)
   return true;
 }
 
+// white-box: canonical id of an item = 4 * (index of its block in allocation order) + slot
+template<class C> static long idOf(const C& c, const typename C::Item* it)
+{
+  usize nb = 0, idx = 0;
+  for(const typename C::ItemBlock* b = c.blocks; b; b = b->next) ++nb;
+  for(const typename C::ItemBlock* b = c.blocks; b; b = b->next, ++idx)
+  {
+    const char* base = (const char*)b + sizeof(typename C::ItemBlock);
+    if((const char*)it >= base && (const char*)it < base + 4 * sizeof(typename C::Item))
+      return (long)(4 * (nb - 1 - idx) + ((const char*)it - base) / sizeof(typename C::Item));
+  }
+  return -1;
+}
+
+// white-box observation: bucket chains (head first), free list (head first), order list, all as canonical item ids
+template<class C> static void observeWhiteBox(const C& c)
+{
+  usize nb = 0;
+  for(const typename C::ItemBlock* b = c.blocks; b; b = b->next) ++nb;
+  printf("wb cap=%lu alloc=%d blocks=%lu chains=", (unsigned long)c.capacity, c.data ? 1 : 0, (unsigned long)nb);
+  bool any = false;
+  if(c.data)
+    for(usize b = 0; b < c.capacity; ++b)
+    {
+      if(!c.data[b]) continue;
+      printf("%s%lu:", any ? "|" : "", (unsigned long)b);
+      any = true;
+      long n = 0;
+      for(const typename C::Item* i = c.data[b]; i && n < 100000; i = i->nextCell, ++n)
+        printf("%s%ld", n ? "," : "", idOf(c, i));
+    }
+  if(!any) printf("-");
+  printf(" free=");
+  long n = 0;
+  for(const typename C::Item* i = c.freeItem; i && n < 100000; i = i->prev, ++n)
+    printf("%s%ld", n ? "," : "", idOf(c, i));
+  if(!n) printf("-");
+  printf(" order=");
+  n = 0;
+  for(typename C::Iterator i = c.begin(), end = c.end(); i != end && n < 100000; ++i, ++n)
+    printf("%s%ld", n ? "," : "", idOf(c, i.item));
+  if(!n) printf("-");
+  hxEndLine();
+}
+
 template<class C> static void observeTable(C& c)
 {
   printf("n=%lu e=%d it=", (unsigned long)c.size(), (int)c.isEmpty());
@@ -221,6 +266,7 @@ template<class C> struct Runner
     int v = (int)hxNum(l, 1), w = 1 - v;
     C& c = *t[v];
     C& o = *t[w];
+    if(hxIs(l, "wb", 1)) { observeWhiteBox(c); res = -3; return true; }
     if(hxIs(l, "new", 2)) { c.~C(); t[v] = new(mem[v]) C((usize)hxNum(l, 2)); return true; }
     if(hxIs(l, "newdef", 1)) { c.~C(); t[v] = new(mem[v]) C; return true; }
     if(hxIs(l, "copy", 1)) return opCopy(t[v], mem[v], o);
@@ -331,6 +377,7 @@ int main()
     else if(g_kind == 1) ok = rSet.exec(l, res);
     else ok = rPool.exec(l, res);
     if(!ok) { printf("bad-op"); hxEndLine(); continue; }
+    if(res == -3) continue;    // white-box line already printed
     observe(res);
   }
   configure(0, 0, 6);
